@@ -48,7 +48,9 @@ impl Join {
     }
 
     fn wait(&self) {
-        if self.state.load(Ordering::Acquire) {
+        // a wake up that is not the trigger (a cancel that arrives while the
+        // cancellation is disabled) must not end the wait
+        while self.state.load(Ordering::Acquire) {
             let cur = Blocker::current();
             // register the blocker first
             self.to_wake.store(cur.clone());
